@@ -153,11 +153,10 @@ theorem swapCount_bound (sizes : List Nat) (a z : Nat) (rep : Bool) (haz : a ≤
   · split <;> omega
 
 
-theorem swapCount_facts (sizes : List Nat) (a z : Nat) (rep : Bool) (haz : a ≤ z) (htot : 8 * sizes.sum ≠ 0)
-    (hvalid : rep = true ∨ a + 8 * sizes.sum ≤ z) :
-    a + swapCount sizes a z rep * (8 * sizes.sum) ≤ (if rep then z else a + 8 * sizes.sum) ∧
-    (if rep then z else a + 8 * sizes.sum) < a + (swapCount sizes a z rep + 1) * (8 * sizes.sum) ∧
-    swapCount sizes a z rep ≤ (if rep then z else a + 8 * sizes.sum) + 1 := by
+theorem swapCount_facts (sizes : List Nat) (a z : Nat) (rep : Bool) (haz : a ≤ z) (htot : 8 * sizes.sum ≠ 0) :
+    a + swapCount sizes a z rep * (8 * sizes.sum) ≤ (if rep then z else min (a + 8 * sizes.sum) z) ∧
+    (if rep then z else min (a + 8 * sizes.sum) z) < a + (swapCount sizes a z rep + 1) * (8 * sizes.sum) ∧
+    swapCount sizes a z rep ≤ (if rep then z else min (a + 8 * sizes.sum) z) + 1 := by
   unfold swapCount
   generalize 8 * sizes.sum = T at *
   have hT : 0 < T := Nat.pos_of_ne_zero htot
@@ -174,11 +173,10 @@ theorem swapCount_facts (sizes : List Nat) (a z : Nat) (rep : Bool) (haz : a ≤
     generalize q * T = qT at *
     refine ⟨?_, ?_, ?_⟩ <;> omega
   | false =>
-    have hv : a + T ≤ z := by cases hvalid with
-      | inl h => cases h
-      | inr h => exact h
-    simp only [Bool.false_eq_true, if_false, if_pos hv]
-    omega
+    simp only [Bool.false_eq_true, if_false]
+    by_cases hv : a + T ≤ z
+    · simp only [if_pos hv]; omega
+    · simp only [if_neg hv]; omega
 
 theorem split3 (l : Bits) (a n : Nat) : l = l.take a ++ (l.drop a).take n ++ l.drop (a + n) := by
   rw [List.append_assoc, ← List.drop_drop, List.take_append_drop, List.take_append_drop]
@@ -186,12 +184,12 @@ theorem split3 (l : Bits) (a n : Nat) : l = l.take a ++ (l.drop a).take n ++ l.d
 theorem byteswap_decomp (pre mid post : Bits) (f : Fmt) (s e : Option Int) (rep : Bool) (a z : Nat)
     (sizes : List Nat)
     (hv : validateSlice (pre ++ mid ++ post).length s e = .ok (a, z)) (hf : fmtSizes f a z = .ok sizes)
-    (hvalid : rep = true ∨ a + 8 * sizes.sum ≤ z) (htot : 8 * sizes.sum ≠ 0) (hpre : pre.length = a)
+    (htot : 8 * sizes.sum ≠ 0) (hpre : pre.length = a)
     (hmid : mid.length = swapCount sizes a z rep * (8 * sizes.sum)) :
     byteswap (pre ++ mid ++ post) f s e rep
       = .ok (swapCount sizes a z rep, pre ++ swapRepeat (swapCount sizes a z rep) (8 * sizes.sum) sizes mid ++ post) := by
   obtain ⟨haz, _⟩ := validateSlice_bounds _ _ _ _ _ hv
-  obtain ⟨h1, h2, h3⟩ := swapCount_facts sizes a z rep haz htot hvalid
+  obtain ⟨h1, h2, h3⟩ := swapCount_facts sizes a z rep haz htot
   unfold byteswap
   simp only [hv, hf, if_neg htot]
   rw [swapLoop_inrange (swapCount sizes a z rep) sizes (8 * sizes.sum) rfl _ pre mid post _ _ 0 hmid
@@ -199,7 +197,7 @@ theorem byteswap_decomp (pre mid post : Bits) (f : Fmt) (s e : Option Int) (rep 
 
 theorem byteswap_eq_spec' (l : Bits) (f : Fmt) (s e : Option Int) (rep : Bool) (a z : Nat) (sizes : List Nat)
     (hv : validateSlice l.length s e = .ok (a, z)) (hf : fmtSizes f a z = .ok sizes)
-    (hvalid : rep = true ∨ a + 8 * sizes.sum ≤ z) :
+    :
     byteswap l f s e rep = .ok (swapSpec l sizes a z rep) := by
   obtain ⟨haz, hzl⟩ := validateSlice_bounds _ _ _ _ _ hv
   by_cases htot : 8 * sizes.sum = 0
@@ -211,7 +209,7 @@ theorem byteswap_eq_spec' (l : Bits) (f : Fmt) (s e : Option Int) (rep : Bool) (
     have hmid : ((l.drop a).take (swapCount sizes a z rep * (8 * sizes.sum))).length
         = swapCount sizes a z rep * (8 * sizes.sum) := by simp; omega
     have key := byteswap_decomp _ _ (l.drop (a + swapCount sizes a z rep * (8 * sizes.sum))) f s e rep a z sizes
-      (by rw [← hl]; exact hv) hf hvalid htot hpre hmid
+      (by rw [← hl]; exact hv) hf htot hpre hmid
     have spec := swapSpec_decomp sizes a z rep _ _ (l.drop (a + swapCount sizes a z rep * (8 * sizes.sum)))
       htot hpre hmid
     rw [← hl] at key spec
@@ -220,30 +218,30 @@ theorem byteswap_eq_spec' (l : Bits) (f : Fmt) (s e : Option Int) (rep : Bool) (
 
 theorem byteswap_struct (l : Bits) (f : Fmt) (s e : Option Int) (rep : Bool) (a z : Nat) (sizes : List Nat)
     (hv : validateSlice l.length s e = .ok (a, z)) (hf : fmtSizes f a z = .ok sizes)
-    (hvalid : rep = true ∨ a + 8 * sizes.sum ≤ z) (htot : 8 * sizes.sum ≠ 0) (k : Nat) (l' : Bits)
+    (htot : 8 * sizes.sum ≠ 0) (k : Nat) (l' : Bits)
     (h : byteswap l f s e rep = .ok (k, l')) :
     k = swapCount sizes a z rep ∧
     l' = l.take a ++ swapRepeat (swapCount sizes a z rep) (8 * sizes.sum) sizes
           ((l.drop a).take (swapCount sizes a z rep * (8 * sizes.sum)))
         ++ l.drop (a + swapCount sizes a z rep * (8 * sizes.sum)) := by
-  rw [byteswap_eq_spec' l f s e rep a z sizes hv hf hvalid] at h
+  rw [byteswap_eq_spec' l f s e rep a z sizes hv hf] at h
   unfold swapSpec at h
   simp only [if_neg htot, Except.ok.injEq, Prod.mk.injEq] at h
   exact ⟨h.1.symm, h.2.symm⟩
 
 theorem byteswap_twice' (l : Bits) (f : Fmt) (s e : Option Int) (rep : Bool) (a z : Nat) (sizes : List Nat)
     (hv : validateSlice l.length s e = .ok (a, z)) (hf : fmtSizes f a z = .ok sizes)
-    (hvalid : rep = true ∨ a + 8 * sizes.sum ≤ z) (k : Nat) (l' : Bits)
+    (k : Nat) (l' : Bits)
     (h : byteswap l f s e rep = .ok (k, l')) :
     byteswap l' f s e rep = .ok (k, l) := by
   obtain ⟨haz, hzl⟩ := validateSlice_bounds _ _ _ _ _ hv
   by_cases htot : 8 * sizes.sum = 0
   · have h' := h
-    rw [byteswap_eq_spec' l f s e rep a z sizes hv hf hvalid] at h'
+    rw [byteswap_eq_spec' l f s e rep a z sizes hv hf] at h'
     simp only [swapSpec, htot, if_true, Except.ok.injEq, Prod.mk.injEq] at h'
     obtain ⟨rfl, rfl⟩ := h'
     exact h
-  · obtain ⟨hk, hl'⟩ := byteswap_struct l f s e rep a z sizes hv hf hvalid htot k l' h
+  · obtain ⟨hk, hl'⟩ := byteswap_struct l f s e rep a z sizes hv hf htot k l' h
     subst hk
     have hkb := swapCount_bound sizes a z rep haz
     have hl := split3 l a (swapCount sizes a z rep * (8 * sizes.sum))
@@ -257,7 +255,7 @@ theorem byteswap_twice' (l : Bits) (f : Fmt) (s e : Option Int) (rep : Bool) (a 
       simp only [List.length_append] at this ⊢
       rw [hmid', this]
     have key := byteswap_decomp (l.take a) _ (l.drop (a + swapCount sizes a z rep * (8 * sizes.sum))) f s e rep a z
-      sizes (by rw [← hl', hlen]; exact hv) hf hvalid htot hpre (hmid'.trans hmid)
+      sizes (by rw [← hl', hlen]; exact hv) hf htot hpre (hmid'.trans hmid)
     rw [← hl', swapRepeat_swapRepeat _ _ _ rfl _ hmid, ← hl] at key
     exact key
 
